@@ -161,6 +161,7 @@ func runProxy(t *testing.T, fx *fixtures, c verifCase, w *bufio.Writer) {
 		topts := TargetOptions{HealthCheckConfig: HealthCheckConfig{Path: "/up", Interval: pxInterval, Timeout: pxHcTimeout}, ResponseTimeout: time.Hour}
 
 		for _, line := range c.lines {
+			verifTick()
 			if line == "" || strings.HasPrefix(line, "#") {
 				fmt.Fprintln(w, line)
 				continue
